@@ -3,7 +3,6 @@ import ClipVerif.Model.Trim
 import ClipVerif.Model.Simplify
 import ClipVerif.Model.PIP
 import ClipVerif.Model.Lists
-import ClipVerif.Check.PathProps
 /-
 Correspondence side of the line protocol: `model <name> …` evaluates a hand model, `gen <fn> …`
 evaluates a generated function; both print the result in a canonical form that the harness
@@ -113,22 +112,5 @@ def gen (fn : String) (ts : Toks) : String :=
   | "PerpendicDistFromLineSqr64", [x1, y1, x2, y2, x3, y3] =>
     toString ((PerpendicDistFromLineSqr64 (pt x1 y1) (pt x2 y2) (pt x3 y3)).toBits.toNat)
   | _, _ => "parse-error gen"
-
-/-- `props trim <open> <input> <output>` | `props simplify <closed> <eps2num> <eps2den> <input> <output>` -/
-def props (name : String) (ts : Toks) : String :=
-  match name, ts with
-  | "trim", isOpen :: rest =>
-    match takePath rest with
-    | some (inp, rest) => match takePath rest with
-      | some (out, []) => if isOpen != 0 then PathProps.trimOpen inp out else PathProps.trimClosed inp out
-      | _ => "parse-error"
-    | none => "parse-error"
-  | "simplify", closed :: en :: ed :: rest =>
-    match takePath rest with
-    | some (inp, rest) => match takePath rest with
-      | some (out, []) => PathProps.simplify inp out (closed != 0) ((en : Rat) / (ed : Rat))
-      | _ => "parse-error"
-    | none => "parse-error"
-  | _, _ => "parse-error props"
 
 end ModelProto
